@@ -190,3 +190,80 @@ def func_by_content(module, pred, what):
 
 def str_constants(node):
     return [n.value for n in ast.walk(node) if isinstance(n, ast.Constant) and isinstance(n.value, str)]
+
+
+def canon_comprehension(node):
+    """Text of a comprehension (or of source text of one) that is indifferent to how the walk over a mapping is spelled and to the names of the
+    comprehension's variables: `for k in X` with k used only as `X[k]`, `for k, v in X.items()` with k unused and `for v in X.values()` all
+    become `for _cN in X.values()`; `for k, v in X.items()` with v unused becomes `for _cN in X`; variables are numbered by position."""
+    import copy
+    if isinstance(node, str):
+        node = ast.parse(node, mode='eval').body
+    node = copy.deepcopy(node)
+    if not isinstance(node, (ast.ListComp, ast.SetComp, ast.DictComp, ast.GeneratorExp)):
+        return ast.unparse(node)
+
+    def later_parts(k):
+        parts = []
+        gen = node.generators[k]
+        parts += gen.ifs
+        for g in node.generators[k + 1:]:
+            parts += [g.iter] + g.ifs
+        parts += [node.key, node.value] if isinstance(node, ast.DictComp) else [node.elt]
+        return parts
+
+    class Sub(ast.NodeTransformer):
+        def __init__(self, match, new):
+            self.match, self.new = match, new
+
+        def visit(self, n):
+            if self.match(n):
+                return copy.deepcopy(self.new)
+            return self.generic_visit(n)
+
+    def apply(k, match, new):
+        gen = node.generators[k]
+        gen.ifs = [Sub(match, new).visit(c) for c in gen.ifs]
+        for g in node.generators[k + 1:]:
+            g.iter = Sub(match, new).visit(g.iter)
+            g.ifs = [Sub(match, new).visit(c) for c in g.ifs]
+        if isinstance(node, ast.DictComp):
+            node.key = Sub(match, new).visit(node.key)
+            node.value = Sub(match, new).visit(node.value)
+        else:
+            node.elt = Sub(match, new).visit(node.elt)
+
+    def uses(k, name):
+        return [n for p in later_parts(k) for n in ast.walk(p) if isinstance(n, ast.Name) and n.id == name]
+
+    for k, gen in enumerate(node.generators):
+        it = gen.iter
+        is_items = isinstance(it, ast.Call) and isinstance(it.func, ast.Attribute) and it.func.attr == 'items' and not it.args
+        if is_items and isinstance(gen.target, ast.Tuple) and len(gen.target.elts) == 2 and all(isinstance(e, ast.Name) for e in gen.target.elts):
+            key, val = gen.target.elts
+            if not uses(k, key.id):
+                gen.target = ast.Name(id=val.id, ctx=ast.Store())
+                gen.iter = ast.Call(func=ast.Attribute(value=it.func.value, attr='values', ctx=ast.Load()), args=[], keywords=[])
+            elif not uses(k, val.id):
+                gen.target = ast.Name(id=key.id, ctx=ast.Store())
+                gen.iter = it.func.value
+            else:
+                slot = ast.unparse(ast.Subscript(value=it.func.value, slice=ast.Name(id=key.id, ctx=ast.Load()), ctx=ast.Load()))
+                apply(k, lambda n, slot=slot: isinstance(n, ast.Subscript) and ast.unparse(n) == slot, ast.Name(id=val.id, ctx=ast.Load()))
+        it = gen.iter
+        if isinstance(gen.target, ast.Name) and not (isinstance(it, ast.Call)):
+            name = gen.target.id
+            slot = ast.unparse(ast.Subscript(value=it, slice=ast.Name(id=name, ctx=ast.Load()), ctx=ast.Load()))
+            all_uses = uses(k, name)
+            in_slots = [n for p in later_parts(k) for s in ast.walk(p) if isinstance(s, ast.Subscript) and ast.unparse(s) == slot for n in [s.slice]]
+            if all_uses and len(all_uses) == len(in_slots):
+                apply(k, lambda n, slot=slot: isinstance(n, ast.Subscript) and ast.unparse(n) == slot, ast.Name(id=name, ctx=ast.Load()))
+                gen.iter = ast.Call(func=ast.Attribute(value=it, attr='values', ctx=ast.Load()), args=[], keywords=[])
+    counter = 0
+    for k, gen in enumerate(node.generators):
+        for t in [x for x in ast.walk(gen.target) if isinstance(x, ast.Name)]:
+            old, new = t.id, '_c{}'.format(counter)
+            counter += 1
+            apply(k, lambda n, old=old: isinstance(n, ast.Name) and n.id == old, ast.Name(id=new, ctx=ast.Load()))
+            t.id = new
+    return ast.unparse(ast.fix_missing_locations(node))
